@@ -227,8 +227,8 @@ func randomLv(r *rand.Rand) ([]LkEvent, map[string]any, string) {
 			return ev, nil, "flush failed: " + err.Error()
 		}
 		ev = append(ev, fe)
-		if r.Intn(3) == 0 {
-			lookups()
+		if r.Intn(3) > 0 {
+			lookups() // also warms whatever the level manager may cache about the files it has now
 		}
 		switch r.Intn(5) {
 		case 0, 1:
